@@ -9,4 +9,7 @@ import (
 func init() { hx.Register("C03", Run) }
 
 // Run generates (or replays) the cases of C03, drives the real client and applies the direct oracle.
-func Run(r *hx.Run, replay []hx.Case) { sendx.RunProp(r, replay, "C03") }
+func Run(r *hx.Run, replay []hx.Case) {
+	sendx.RunProp(r, replay, "C03")
+	sendx.RunDot(r, replay)
+}
